@@ -804,8 +804,11 @@ def bash_sweep(ctx, ecases, ecode, specv):
 
 
 def heredoc_class(mode, expr):
-    """class of KF-C07-arith-command-heredoc: a `(( ))` command whose expression has an inner `))` and a later `<<`"""
-    return mode == "cmd" and re.search(r"\)\).*<<", expr, flags=re.S) is not None
+    """class of KF-C07-arith-command-heredoc: a `(( ))` command whose expression has an inner `))` and a later `<<`,
+    or a `${s:expr}` / `${a[expr]}` expansion whose expression contains `<<`"""
+    if mode == "cmd":
+        return re.search(r"\)\).*<<", expr, flags=re.S) is not None
+    return mode in ("substr", "index") and "<<" in expr
 
 
 def shell_paths(ctx, ecases, emodel, mism, specv):
